@@ -167,109 +167,160 @@ end spreports
 
 /-! ### the `tenmat` constructor -/
 
-/-- **The `tenmat` constructor reports** (for data with at least one cell): whenever
-`tenmat(data, rdims, cdims, tshape)` is accepted, the object holds the given values as a matrix
-(a vector becomes one row), reports the given `tshape` (default: the shape of the matrix), the
-pair `gather_wrap_dims` derives from the arguments as `rindices` / `cindices` — a permutation of
-the modes —, and matrix and tensor have equally many cells.  Nothing in the code makes the two
-extents of the matrix the two side sizes (see `tenmat_ctor_shape_counterexample`). -/
-theorem tenmat_ctor_spec (data : Dense α) (rd cd ts : Option (List Nat)) (M : Tenmat α)
-    (hpos : numel data.shape ≠ 0) (h : Tenmat.mk? data rd cd ts = .ok M) :
-    M.data.data = data.data ∧
-    (M.data.shape = data.shape ∨ ∃ n, data.shape = [n] ∧ M.data.shape = [1, n]) ∧
-    M.data.shape.length = 2 ∧
-    M.tshape = ts.getD M.data.shape ∧
+/-- the part of the constructor after the matrix is known. -/
+theorem tenmat_mkCore_spec (d : Dense α) (w : Bool) (rd cd ts : Option (List Nat)) (M : Tenmat α)
+    (h : Tenmat.mkCore d w rd cd ts = .ok M) :
+    M.data.data = d.data ∧ M.tshape = ts.getD d.shape ∧
     gatherWrapDims M.tshape.length rd cd none = .ok (M.rdims, M.cdims) ∧
     isPermOf (M.rdims ++ M.cdims) M.tshape.length = true ∧
-    numel M.data.shape = numel M.tshape ∧
-    numel (gather M.tshape M.rdims) * numel (gather M.tshape M.cdims) = numel M.data.shape := by
+    M.data.shape = [numel (gather M.tshape M.rdims), numel (gather M.tshape M.cdims)] ∧
+    numel M.data.shape = numel d.shape ∧ (w = false → M.data = d) := by
+  unfold Tenmat.mkCore at h
+  simp only at h
+  by_cases hn : numel d.shape = numel (ts.getD d.shape)
+  · have hn' : (numel d.shape != numel (ts.getD d.shape)) = false := by simp [hn]
+    rw [hn'] at h
+    simp only [Bool.false_eq_true, if_false] at h
+    cases hg : gatherWrapDims (ts.getD d.shape).length rd cd none with
+    | error e => rw [hg] at h; cases h
+    | ok rc =>
+      obtain ⟨r, c⟩ := rc
+      rw [hg] at h
+      simp only at h
+      by_cases hr : (!(r.all (· < (ts.getD d.shape).length)) || !(c.all (· < (ts.getD d.shape).length))) = true
+      · rw [if_pos hr] at h; cases h
+      · rw [if_neg hr] at h
+        -- the matrix that is kept
+        generalize hd' : (if (w && numel [numel (gather (ts.getD d.shape) r), numel (gather (ts.getD d.shape) c)]
+            == numel d.shape) = true then
+            (⟨[numel (gather (ts.getD d.shape) r), numel (gather (ts.getD d.shape) c)], d.data⟩ : Dense α) else d) = d' at h
+        have hdata : d'.data = d.data := by rw [← hd']; split <;> rfl
+        have hnum : numel d'.shape = numel d.shape := by
+          rw [← hd']
+          split
+          · next hc =>
+            simp only [Bool.and_eq_true, beq_iff_eq] at hc
+            exact hc.2
+          · rfl
+        have hw : w = false → d' = d := by
+          intro hw; rw [← hd', hw]; simp
+        by_cases hq : d'.shape = [numel (gather (ts.getD d.shape) r), numel (gather (ts.getD d.shape) c)]
+        · have hq' : (d'.shape != [numel (gather (ts.getD d.shape) r), numel (gather (ts.getD d.shape) c)]) = false := by
+            simp [hq]
+          rw [hq'] at h
+          simp only [Bool.false_eq_true, if_false] at h
+          by_cases hp : isPermOf (r ++ c) (ts.getD d.shape).length = true
+          · simp only [hp, Bool.not_true, Bool.false_eq_true, if_false] at h
+            have hM := (Except.ok.inj h).symm
+            subst hM
+            exact ⟨hdata, rfl, hg, hp, hq, hnum, hw⟩
+          · simp only [hp, Bool.not_false, if_true] at h; cases h
+        · have hq' : (d'.shape != [numel (gather (ts.getD d.shape) r), numel (gather (ts.getD d.shape) c)]) = true := by
+            simp [hq]
+          rw [hq'] at h
+          simp only [if_true] at h
+          cases h
+  · have hn' : (numel d.shape != numel (ts.getD d.shape)) = true := by simp [hn]
+    rw [hn'] at h
+    simp only [if_true] at h
+    cases h
+
+theorem tenmat_mk_cases (data : Dense α) (rd cd ts : Option (List Nat)) (M : Tenmat α)
+    (hpos : numel data.shape ≠ 0) (h : Tenmat.mk? data rd cd ts = .ok M) :
+    ∃ d w, Tenmat.dataMatrix data ts = .ok (d, w) ∧ Tenmat.mkCore d w rd cd ts = .ok M := by
   unfold Tenmat.mk? at h
   have h0 : (numel data.shape == 0) = false := by simpa using hpos
   simp only [h0, Bool.false_eq_true, if_false] at h
-  -- the matrix the constructor keeps
-  have key : ∀ d : Dense α, d.data = data.data →
-      (d.shape = data.shape ∨ ∃ n, data.shape = [n] ∧ d.shape = [1, n]) → d.shape.length = 2 →
-      (let tsv := ts.getD d.shape
-       if numel d.shape != numel tsv then (.error .reject : Except Reject (Tenmat α))
-       else
-         match gatherWrapDims tsv.length rd cd none with
-         | .error e => .error e
-         | .ok (r, c) =>
-           if !(r.all (· < tsv.length)) || !(c.all (· < tsv.length)) then .error .reject
-           else if numel (gather tsv r) * numel (gather tsv c) != numel d.shape then .error .reject
-           else if !isPermOf (r ++ c) tsv.length then .error .reject
-           else .ok ⟨tsv, r, c, d⟩) = .ok M →
-      M.data.data = data.data ∧
-      (M.data.shape = data.shape ∨ ∃ n, data.shape = [n] ∧ M.data.shape = [1, n]) ∧
-      M.data.shape.length = 2 ∧
-      M.tshape = ts.getD M.data.shape ∧
-      gatherWrapDims M.tshape.length rd cd none = .ok (M.rdims, M.cdims) ∧
-      isPermOf (M.rdims ++ M.cdims) M.tshape.length = true ∧
-      numel M.data.shape = numel M.tshape ∧
-      numel (gather M.tshape M.rdims) * numel (gather M.tshape M.cdims) = numel M.data.shape := by
-    intro d hd hsh hl2 hk
-    simp only at hk
-    by_cases hn : numel d.shape = numel (ts.getD d.shape)
-    · have hn' : (numel d.shape != numel (ts.getD d.shape)) = false := by simp [hn]
-      rw [hn'] at hk
-      simp only [Bool.false_eq_true, if_false] at hk
-      cases hg : gatherWrapDims (ts.getD d.shape).length rd cd none with
-      | error e => rw [hg] at hk; cases hk
-      | ok rc =>
-        obtain ⟨r, c⟩ := rc
-        rw [hg] at hk
-        simp only at hk
-        by_cases hr : (!(r.all (· < (ts.getD d.shape).length)) || !(c.all (· < (ts.getD d.shape).length))) = true
-        · rw [if_pos hr] at hk; cases hk
-        · rw [if_neg hr] at hk
-          by_cases hq : numel (gather (ts.getD d.shape) r) * numel (gather (ts.getD d.shape) c) = numel d.shape
-          · have hq' : (numel (gather (ts.getD d.shape) r) * numel (gather (ts.getD d.shape) c) != numel d.shape) = false := by
-              simp [hq]
-            rw [hq'] at hk
-            simp only [Bool.false_eq_true, if_false] at hk
-            by_cases hp : isPermOf (r ++ c) (ts.getD d.shape).length = true
-            · simp only [hp, Bool.not_true, Bool.false_eq_true, if_false] at hk
-              have hM := (Except.ok.inj hk).symm
-              subst hM
-              exact ⟨hd, hsh, hl2, rfl, hg, hp, hn, hq⟩
-            · simp only [hp, Bool.not_false, if_true] at hk; cases hk
-          · have hq' : (numel (gather (ts.getD d.shape) r) * numel (gather (ts.getD d.shape) c) != numel d.shape) = true := by
-              simp [hq]
-            rw [hq'] at hk
-            simp only [if_true] at hk
-            cases hk
-    · have hn' : (numel d.shape != numel (ts.getD d.shape)) = true := by simp [hn]
-      rw [hn'] at hk
-      simp only [if_true] at hk
-      cases hk
-  -- which matrix that is
-  match hsd : data.shape, h with
+  cases hd : Tenmat.dataMatrix data ts with
+  | error e => rw [hd] at h; cases h
+  | ok dw => obtain ⟨d, w⟩ := dw; rw [hd] at h; exact ⟨d, w, rfl, h⟩
+
+theorem tenmat_dataMatrix_spec (data : Dense α) (ts : Option (List Nat)) (d : Dense α) (w : Bool)
+    (h : Tenmat.dataMatrix data ts = .ok (d, w)) :
+    d.data = data.data ∧ numel d.shape = numel data.shape ∧
+      ((w = false ∧ d = data ∧ data.shape.length = 2) ∨
+       (w = true ∧ ∃ n t, data.shape = [n] ∧ ts = some t ∧ d.shape = [1, n])) := by
+  obtain ⟨sh, dt⟩ := data
+  unfold Tenmat.dataMatrix at h
+  match sh, h with
   | [], h => simp at h
   | [n], h =>
     cases ts with
     | none => simp at h
     | some t =>
-      simp only [hsd] at key
-      exact key ⟨[1, n], data.data⟩ rfl (.inr ⟨n, rfl, rfl⟩) rfl h
+      simp only [Except.ok.injEq, Prod.mk.injEq] at h
+      obtain ⟨rfl, rfl⟩ := h
+      exact ⟨rfl, by simp [numel], .inr ⟨rfl, n, t, rfl, rfl, rfl⟩⟩
   | [a, b], h =>
-    have : data = ⟨[a, b], data.data⟩ := by cases data; simp_all
-    simp only [hsd] at key
-    exact key data rfl (.inl hsd) (by rw [hsd]; rfl) h
+    simp only [Except.ok.injEq, Prod.mk.injEq] at h
+    obtain ⟨rfl, rfl⟩ := h
+    exact ⟨rfl, rfl, .inl ⟨rfl, rfl, rfl⟩⟩
   | _ :: _ :: _ :: _, h => simp at h
 
-/-- when moreover the matrix has the two side sizes as its extents and one value per cell, the
-constructed `tenmat` is well-formed (so `tenmat_toTensor_spec` applies to it). -/
+/-- **The `tenmat` constructor reports** (data with at least one cell, repaired code): whenever
+`tenmat(data, rdims, cdims, tshape)` is accepted, the object holds the given values, reports the
+given `tshape` (default: the shape of the matrix), the pair `gather_wrap_dims` derives from the
+arguments as `rindices` / `cindices` — a permutation of the modes —, its matrix has exactly the
+shape `(prod tshape[rindices], prod tshape[cindices])` (a matrix argument is kept as it is, a
+vector is reshaped to it), with as many cells as the data. -/
+theorem tenmat_ctor_spec (data : Dense α) (rd cd ts : Option (List Nat)) (M : Tenmat α)
+    (hpos : numel data.shape ≠ 0) (h : Tenmat.mk? data rd cd ts = .ok M) :
+    M.data.data = data.data ∧
+    (data.shape.length = 2 → M.data = data) ∧
+    M.tshape = ts.getD data.shape ∧
+    gatherWrapDims M.tshape.length rd cd none = .ok (M.rdims, M.cdims) ∧
+    isPermOf (M.rdims ++ M.cdims) M.tshape.length = true ∧
+    M.data.shape = [numel (gather M.tshape M.rdims), numel (gather M.tshape M.cdims)] ∧
+    numel M.data.shape = numel data.shape ∧
+    M.shapeProp = [numel (gather M.tshape M.rdims), numel (gather M.tshape M.cdims)] ∧ M.ndims = 2 := by
+  obtain ⟨d, w, hdm, hcore⟩ := tenmat_mk_cases data rd cd ts M hpos h
+  obtain ⟨e1, e2, e3⟩ := tenmat_dataMatrix_spec data ts d w hdm
+  obtain ⟨c1, c2, c3, c4, c5, c6, c7⟩ := tenmat_mkCore_spec d w rd cd ts M hcore
+  have hts : M.tshape = ts.getD data.shape := by
+    rw [c2]
+    rcases e3 with ⟨_, hd, _⟩ | ⟨_, n, t, _, ht, _⟩
+    · rw [hd]
+    · rw [ht]; rfl
+  have hnum : numel M.data.shape = numel data.shape := c6.trans e2
+  have hsp : M.shapeProp = [numel (gather M.tshape M.rdims), numel (gather M.tshape M.cdims)] := by
+    unfold Tenmat.shapeProp
+    have : (numel M.data.shape == 0) = false := by rw [hnum]; simpa using hpos
+    simp only [this, Bool.false_eq_true, if_false]
+    exact c5
+  refine ⟨c1.trans e1, ?_, hts, c3, c4, c5, hnum, hsp, by unfold Tenmat.ndims; rw [hsp]; rfl⟩
+  intro h2
+  rcases e3 with ⟨hw, hd, _⟩ | ⟨_, n, t, hn, _, _⟩
+  · rw [c7 hw, hd]
+  · rw [hn] at h2; simp at h2
+
+/-- … hence, for data with one value per cell, the constructed `tenmat` is well-formed (so
+`tenmat_toTensor_spec` applies to it). -/
 theorem tenmat_ctor_wf (data : Dense α) (rd cd ts : Option (List Nat)) (M : Tenmat α)
-    (hpos : numel data.shape ≠ 0) (hd : data.WF) (h : Tenmat.mk? data rd cd ts = .ok M)
-    (hshape : M.data.shape = [numel (gather M.tshape M.rdims), numel (gather M.tshape M.cdims)]) :
-    M.WF := by
-  obtain ⟨h1, h2, _, _, _, hp, _, _⟩ := tenmat_ctor_spec data rd cd ts M hpos h
-  refine ⟨hp, hshape, ?_⟩
+    (hpos : numel data.shape ≠ 0) (hd : data.WF) (h : Tenmat.mk? data rd cd ts = .ok M) : M.WF := by
+  obtain ⟨h1, _, _, _, hp, hs, hn, _, _⟩ := tenmat_ctor_spec data rd cd ts M hpos h
+  refine ⟨hp, hs, ?_⟩
   unfold Dense.WF at *
-  rw [h1, hd]
-  rcases h2 with h2 | ⟨n, hn, h2⟩
-  · rw [h2]
-  · rw [h2, hn]; simp [numel]
+  rw [h1, hd, hn]
+
+/-- **A matrix of another shape is refused**: 2-d data whose shape is not
+`(prod tshape[r], prod tshape[c])` for the pair `(r, c)` that `gather_wrap_dims` derives. -/
+theorem tenmat_ctor_rejects_shape (data : Dense α) (rd cd ts : Option (List Nat)) (r c : List Nat)
+    (hpos : numel data.shape ≠ 0) (h2 : data.shape.length = 2)
+    (hg : gatherWrapDims (ts.getD data.shape).length rd cd none = .ok (r, c))
+    (hne : data.shape ≠ [numel (gather (ts.getD data.shape) r), numel (gather (ts.getD data.shape) c)]) :
+    Tenmat.mk? data rd cd ts = .error .reject := by
+  cases hm : Tenmat.mk? data rd cd ts with
+  | error e => cases e; rfl
+  | ok M =>
+    exfalso
+    obtain ⟨_, hkeep, hts, hgw, _, hs, _, _, _⟩ := tenmat_ctor_spec data rd cd ts M hpos hm
+    rw [hts, hg] at hgw
+    simp only [Except.ok.injEq, Prod.mk.injEq] at hgw
+    apply hne
+    have e : M.data.shape = data.shape := by rw [hkeep h2]
+    have := hs
+    rw [e, hts, ← hgw.1, ← hgw.2] at this
+    exact this
 
 /-! ### `ktensor.to_tenmat` -/
 
